@@ -18,6 +18,8 @@ import RedisVerif.Props.C05
     XNEW / X <input> / XDUMP    the same for the executor-level machine (inputs: MULTI EXEC
                                 DISCARD UNWATCH, WATCH <n> <key>*, CMD <cmd>)
     <cmd> ::= GET k | SET k v | INCR k | APPEND k v | DEL k | RPUSH k <n> v* | LRANGE k | LLEN k
+            | LSET k v (index 0) | LPOP k | HSET k f v | HDEL k f | SADD k m | SREM k m
+            | ZADD k <int> m | ZREM k m | EXPIRE k | PERSIST k <had01> | EVICT k
             | PING | UNWATCH | UNK | LOCAL <id>
 -/
 namespace RedisVerif.Driver.C05
@@ -42,6 +44,23 @@ def cmdP : P KV.Cmd := do
   | "RPUSH" => do let k ← strKey; let n ← nat; let vs ← repeatP n bytesTok; pure (.rpush k vs)
   | "LRANGE" => do let k ← strKey; pure (.lrange k)
   | "LLEN" => do let k ← strKey; pure (.llen k)
+  | "LSET" => do let k ← strKey; let v ← bytesTok; pure (.lset0 k v)
+  | "LPOP" => do let k ← strKey; pure (.lpop k)
+  | "HSET" => do let k ← strKey; let f ← strKey; let v ← bytesTok; pure (.hset k f v)
+  | "HDEL" => do let k ← strKey; let f ← strKey; pure (.hdel k f)
+  | "SADD" => do let k ← strKey; let m ← strKey; pure (.sadd k m)
+  | "SREM" => do let k ← strKey; let m ← strKey; pure (.srem k m)
+  | "ZADD" => do
+    let k ← strKey
+    let t ← tok
+    let m ← strKey
+    match t.toInt? with
+    | some sc => pure (.zadd k sc m)
+    | none => failure
+  | "ZREM" => do let k ← strKey; let m ← strKey; pure (.zrem k m)
+  | "EXPIRE" => do let k ← strKey; pure (.expire k)
+  | "PERSIST" => do let k ← strKey; let h ← nat; pure (.persist k (h != 0))
+  | "EVICT" => do let k ← strKey; pure (.evict k)
   | "PING" => pure .ping
   | "UNWATCH" => pure .unwatch
   | "UNK" => pure .unknown
@@ -99,6 +118,7 @@ def showRep : KV.Rep → String
   | .err .overflow => "-overflow"
   | .err .unknownCmd => "-unknown"
   | .err .connLevel => "-connlevel"
+  | .err .noSuchKey => "-nosuchkey"
 
 def showConnErr : ConnErr → String
   | .execAbort => "-execabort"
@@ -133,7 +153,12 @@ def showStore (s : KV.Store) : String :=
   " ".intercalate (toString s.length :: s.map (fun p =>
     match p.2 with
     | .str b => s!"{showKey p.1} S {hexOfBytes b}"
-    | .list l => " ".intercalate ([showKey p.1, "L", toString l.length] ++ l.map hexOfBytes)))
+    | .list l => " ".intercalate ([showKey p.1, "L", toString l.length] ++ l.map hexOfBytes)
+    | .hash h => " ".intercalate ([showKey p.1, "H", toString h.length] ++
+        h.map (fun q => s!"{showKey q.1} {hexOfBytes q.2}"))
+    | .set m => " ".intercalate ([showKey p.1, "T", toString m.length] ++ m.map showKey)
+    | .zset z => " ".intercalate ([showKey p.1, "Z", toString z.length] ++
+        z.map (fun q => s!"{showKey q.1} {q.2}"))))
 
 structure St where
   conn : ConnTxn Nat KV.Cmd KV.Rep
@@ -149,6 +174,11 @@ def step (st : St) (line : String) : St × String :=
   | ["XNEW"] => ({ st with xt := ExTxn.idle, xstore := [] }, "ok")
   | ["DUMP"] => (st, showStore st.store)
   | ["XDUMP"] => (st, showStore st.xstore)
+  | ["XEVICT", k] =>
+    -- the deadline of a key passed: the executor's `set_time` evicted it (not an input of xstep)
+    match (strKey.run [k]) with
+    | some (kc, []) => ({ st with xstore := NMap.erase kc st.xstore }, "ok")
+    | _ => (st, "bad-op")
   | "C" :: rest =>
     match (inputP.run rest) with
     | some ((inp, sc), []) =>
